@@ -79,6 +79,9 @@ type stats struct {
 	edges                          bool
 	edge                           map[string]bool // labels of the edge values offered and what became of them
 	edgeCombined, edgeValidApplied bool
+
+	// the shape of the consumer (consumer.go)
+	cons consumerStats
 }
 
 // nontrivial is the rule of DESIGN.md: an accepted load that changes a
@@ -167,6 +170,7 @@ func (s *stats) labels() []string {
 	}
 	sort.Strings(es)
 	l = append(l, es...)
+	l = append(l, s.cons.labels()...)
 	return l
 }
 
@@ -270,22 +274,19 @@ func run(sc *Scenario) (st stats, err error) {
 	st.invalidKinds = map[string]bool{}
 	st.edges, st.edge = sc.Edges, map[string]bool{}
 
-	var calls []call
-	h := target.Handler{
-		Add: func(u target.Update) {
-			calls = append(calls, call{"add", u.Name, cloneT(u.Target), cloneR(u.Request)})
-		},
-		Update: func(u target.Update) {
-			calls = append(calls, call{"update", u.Name, cloneT(u.Target), cloneR(u.Request)})
-		},
-		Delete: func(name string) {
-			calls = append(calls, call{"delete", name, nil, nil})
-		},
+	// The consumer: any subset of the three callbacks, registered at construction.
+	reg, perr := parseUnset(sc.Unset)
+	if perr != nil {
+		return st, vio("bad-scenario", "%v", perr)
 	}
+	st.cons.reg, st.cons.ctor = reg, "NewConfig"
+	var calls []call
+	h := reg.handler(func(c call) { calls = append(calls, c) })
 
 	var (
 		cfg      *target.Config
 		cur      *ConfigSpec          // model: current configuration (base or last accepted load)
+		curMsg   *pb.Configuration    // reference message of cur (never handed to the code under test)
 		replayed = map[string]entry{} // handler calls applied to the initial set
 	)
 	switch sc.BaseMode {
@@ -293,6 +294,7 @@ func run(sc *Scenario) (st stats, err error) {
 		cfg = target.NewConfig(h)
 	case "nil":
 		st.nilBase = true
+		st.cons.ctor = "NewConfigWithBase-nil"
 		c, cerr := target.NewConfigWithBase(h, nil)
 		if cerr != nil || c == nil {
 			return st, vio("constructor", "NewConfigWithBase(h, nil) = %v, %v", c, cerr)
@@ -329,7 +331,12 @@ func run(sc *Scenario) (st stats, err error) {
 		st.withBase = true
 		cfg = c
 		cur = sc.Base.clone()
+		curMsg = cur.build()
 		replayed = view(cur.build())
+		st.cons.ctor = "base-without-targets"
+		if len(cur.Targets) > 0 {
+			st.cons.ctor = "base-with-targets"
+		}
 		st.noteRepr(sc.BaseRepr, cur)
 		if len(cur.nilRequestTargets()) > 0 {
 			st.nilReqInBase = true
@@ -397,6 +404,9 @@ func run(sc *Scenario) (st stats, err error) {
 		}
 
 		desc := fmt.Sprintf("load %d (current=%v, loaded=%v)", i, cur, spec)
+		if !reg.all() {
+			desc = fmt.Sprintf("load %d (consumer registered {%s}, current=%v, loaded=%v)", i, reg, cur, spec)
+		}
 		if (gerr == nil) != want {
 			var ran string
 			if gerr != nil && len(got) > 0 {
@@ -408,7 +418,7 @@ func run(sc *Scenario) (st stats, err error) {
 			return st, vio("gate", "%s: Load returned %v; expected accepted=%v (%s, revision strictly greater or no current configuration=%v)%s", desc, gerr, want, describe(reasons, und), revOK, ran)
 		}
 		if sc.Edges && spec != nil {
-			vOK, eerr := entryPoints(spec, ld.Repr, fmt.Sprintf("load %d (offered=%v, %s)", i, spec, describe(reasons, und)))
+			vOK, eerr := entryPoints(spec, ld.Repr, fmt.Sprintf("load %d (offered=%v, %s)", i, spec, describe(reasons, und)), reg)
 			if eerr != nil {
 				return st, eerr
 			}
@@ -467,7 +477,8 @@ func run(sc *Scenario) (st stats, err error) {
 		}
 
 		// The loaded configuration is now the current one.
-		if !sameConfig(after, spec.build()) {
+		specMsg := spec.build()
+		if !sameConfig(after, specMsg) {
 			return st, vio("current-is-not-loaded-config", "%s: accepted, but Current() = {%v}", desc, after)
 		}
 
@@ -586,23 +597,33 @@ func run(sc *Scenario) (st stats, err error) {
 		// Replay the calls onto the set. Add announces a target that is not in
 		// the set, Update and Delete one that is (Handler documentation:
 		// "addition of a new target", "target modification", "a target being removed").
+		// The replay needs every kind of call, so it is the oracle of the consumer
+		// that registered all three; a subset is judged by the projection below.
 		for _, c := range got {
-			_, exists := replayed[c.name]
 			switch c.kind {
 			case "add":
 				st.sawAdd = true
+			case "update":
+				st.sawUpdate = true
+			case "delete":
+				st.sawDelete = true
+			}
+			if !reg.all() {
+				continue
+			}
+			_, exists := replayed[c.name]
+			switch c.kind {
+			case "add":
 				if exists {
 					return st, vio("handler-kind", "%s: Add(%q) for a target that was already announced; calls %s", desc, c.name, callList(got))
 				}
 				replayed[c.name] = entry{c.tgt, c.req}
 			case "update":
-				st.sawUpdate = true
 				if !exists {
 					return st, vio("handler-kind", "%s: Update(%q) for a target that was never announced; calls %s", desc, c.name, callList(got))
 				}
 				replayed[c.name] = entry{c.tgt, c.req}
 			case "delete":
-				st.sawDelete = true
 				if !exists {
 					return st, vio("handler-kind", "%s: Delete(%q) for a target that was never announced; calls %s", desc, c.name, callList(got))
 				}
@@ -610,12 +631,22 @@ func run(sc *Scenario) (st stats, err error) {
 			}
 		}
 		nilNew := spec.nilRequestTargets()
-		if d := diffViews(replayed, view(after), nilNew); d != "" {
-			return st, vio("replay-mismatch", "%s: replaying the handler calls %s does not yield Current(): %s", desc, callList(got), d)
+		if reg.all() {
+			if d := diffViews(replayed, view(after), nilNew); d != "" {
+				return st, vio("replay-mismatch", "%s: replaying the handler calls %s does not yield Current(): %s", desc, callList(got), d)
+			}
 		}
+		// Every consumer: the calls are the full difference of the two
+		// configurations projected onto the kinds it registered.
+		wantDiff := expectedDiff(curMsg, specMsg)
+		proj, perr := checkProjection(got, wantDiff, reg, curMsg, specMsg)
+		if perr != nil {
+			return st, vio(failClass(perr), "%s: %v", desc, perr)
+		}
+		st.cons.note(proj, wantDiff)
 		st.noteDegenerate(old, spec, got, perName)
 		st.noteRepr(ld.Repr, spec)
-		cur = spec
+		cur, curMsg = spec, specMsg
 	}
 	return st, nil
 }
